@@ -1,0 +1,75 @@
+/* This Source Code Form is subject to the terms of the Mozilla Public
+ * License, v. 2.0. If a copy of the MPL was not distributed with this
+ * file, You can obtain one at https://mozilla.org/MPL/2.0/. */
+//! Read-only view of Foca's private state, for external verification
+//! tooling. Only compiled with the `verif-hooks` feature; changes no
+//! behaviour.
+use alloc::vec::Vec;
+
+use crate::{
+    BroadcastHandler, ConnectionState, Foca, Identity, Incarnation, Member, ProbeNumber,
+    TimerToken,
+};
+
+/// A copy of the parts of [`Foca`]'s state that are not observable
+/// through its public API.
+#[derive(Debug, Clone, PartialEq, Eq)]
+pub struct VerifSnapshot<T> {
+    /// Current incarnation of the instance's own identity
+    pub incarnation: Incarnation,
+    /// Current timer token (connection epoch)
+    pub timer_token: TimerToken,
+    /// 0 = disconnected, 1 = connected, 2 = undead
+    pub connection_state: u8,
+    /// Member being probed, as it was when the probe started
+    pub probe_target: Option<Member<T>>,
+    /// Current probe number
+    pub probe_number: ProbeNumber,
+    /// Helpers asked in this round that haven't answered yet
+    pub probe_indirect_pending: Vec<T>,
+    /// Whether a direct ack arrived in this round
+    pub probe_direct_ack: bool,
+    /// Number of indirect acks counted in this round
+    pub probe_indirect_acks: usize,
+    /// Whether the indirect probe timer fired in this round
+    pub probe_reached_indirect: bool,
+    /// Round-robin cursor over the member list
+    pub members_cursor: usize,
+    /// (encoded update, remaining transmissions) of the updates backlog
+    pub updates: Vec<(Vec<u8>, usize)>,
+    /// (item, remaining transmissions) of the custom broadcast backlog
+    pub custom_broadcasts: Vec<(Vec<u8>, usize)>,
+    /// Capacity of the reusable send buffer
+    pub send_buf_capacity: usize,
+}
+
+impl<T, C, RNG, B> Foca<T, C, RNG, B>
+where
+    T: Identity,
+    B: BroadcastHandler<T>,
+{
+    /// Take a snapshot of the private state. Read-only.
+    pub fn verif_snapshot(&self) -> VerifSnapshot<T> {
+        let (probe_target, probe_indirect_pending, probe_direct_ack, probe_indirect_acks, reached) =
+            self.probe.verif_state();
+        VerifSnapshot {
+            incarnation: self.incarnation,
+            timer_token: self.timer_token,
+            connection_state: match self.connection_state {
+                ConnectionState::Disconnected => 0,
+                ConnectionState::Connected => 1,
+                ConnectionState::Undead => 2,
+            },
+            probe_target,
+            probe_number: self.probe.probe_number(),
+            probe_indirect_pending,
+            probe_direct_ack,
+            probe_indirect_acks,
+            probe_reached_indirect: reached,
+            members_cursor: self.members.verif_cursor(),
+            updates: self.updates.verif_entries(),
+            custom_broadcasts: self.custom_broadcasts.verif_entries(),
+            send_buf_capacity: self.send_buf.capacity(),
+        }
+    }
+}
